@@ -37,6 +37,9 @@ pub enum HttpBeh {
     CloseMid { stage: u8, at: u16 },
     /// read the request, never answer (thorough tier only)
     Stall,
+    /// `code` (301 / 302 / 307 / 308) with a Location on the same server, where the valid table is:
+    /// an HTTP client follows it; the answer is the table
+    Redirect { code: u16, doc: u8, rows: u8 },
 }
 
 /// One requested split point of a TCP response.
@@ -387,6 +390,10 @@ fn reason(code: u16) -> &'static str {
         502 => "Bad Gateway",
         503 => "Service Unavailable",
         504 => "Gateway Timeout",
+        301 => "Moved Permanently",
+        302 => "Found",
+        307 => "Temporary Redirect",
+        308 => "Permanent Redirect",
         _ => "Status",
     }
 }
@@ -438,14 +445,25 @@ async fn handle_http(mut s: TcpStream, b: HttpBeh, id: u8, sh: Arc<Shared>) {
     }
     let line = String::from_utf8_lossy(&buf);
     let path = line.split_whitespace().nth(1).unwrap_or("").to_string();
+    // the target of a redirect answers like the original path
+    let redirected = path.starts_with("/redirected");
+    let path = path.strip_prefix("/redirected").map_or(path.clone(), str::to_string);
     let tag = tag_of(&path);
-    sh.push(id, path);
+    sh.push(id, path.clone());
     let (resp, cut): (Vec<u8>, Option<usize>) = match b {
         HttpBeh::Answer { doc: d, rows, chunked } => (http_response(200, "", doc(d, rows, &tag).0.as_bytes(), chunked).0, None),
         HttpBeh::Status { code, retry_after, bpsv_body } => {
             let extra = retry_after.map(|n| format!("Retry-After: {}\r\n", retry_after_text(n))).unwrap_or_default();
             let body = if bpsv_body { doc(99, 2, &tag).0.into_bytes() } else { format!("{code} {}\n", reason(code)).into_bytes() };
             (http_response(code, &extra, &body, false).0, None)
+        }
+        HttpBeh::Redirect { code, doc: d, rows } => {
+            if redirected {
+                (http_response(200, "", doc(d, rows, &tag).0.as_bytes(), false).0, None)
+            } else {
+                let port = s.local_addr().map(|a| a.port()).unwrap_or(0);
+                (http_response(code, &format!("Location: http://127.0.0.1:{port}/redirected{path}\r\n"), b"moved\n", false).0, None)
+            }
         }
         HttpBeh::Malformed { kind } => (http_response(200, "", &http_malformed(kind), false).0, None),
         HttpBeh::CloseMid { stage, at } => {
